@@ -117,12 +117,16 @@ _ADD = {
     "C12": " get_D_matrix_lambda / Dfun_delta_v2 select by helicity value for an ARBITRARY D tensor and every ordering / sub-list of helicities (2j <= 6).",
     "C16": " VarsManager fit coordinates (set_trans_var, set_all list/dict, set, get, get_all_val) proved on symbolic values with a bounded parameter at every position and a fixed parameter in the frame.",
     "C18": " load_dat_file's file -> particle index map proved on symbolic file contents (.dat/.npy/.npz, 1-3 files, every split of the particles; sizes bounded).",
+    "C19": " Ground-exhaustive contracts on the pure helpers of the configuration grammar against independent specifications: rename_params (documented aliases == expanded keys, "
+           "all key subsets), decay_item / _list2decay (one record per alternative, option dictionaries merged), particle_item_list (candidates / properties separated, nested items "
+           "flattened), BaseParticle.chain_decay / cross_combine (exactly one decay mode per reachable unstable particle, 40 graphs incl. both daughters decaying).",
     "C20": " BWGenerator (density, antiderivative, CDF inverse, range) proved for all parameters; multi_sampling / single_sampling2 / GenTest.generate return EXACTLY N events for all N >= 1 "
            "(loop VCs after a mechanical inlining of the generator).",
 }
 for _k, _v in _ADD.items():
     CLAIMED[_k]["text"] += _v
 CLAIMED["C20"]["technique"] = TECH_S + "; AST verification conditions (z3 LIA); " + TECH_B
+CLAIMED["C19"]["technique"] = TECH_G + " (helper functions, stated grammars); " + TECH_B
 CLAIMED["C08"]["technique"] = "typed resolution check from the AST; " + TECH_S + "; " + TECH_B
 CLAIMED["C18"]["technique"] = "AST verification conditions (z3 LIA); symbolic execution of the real loader on symbolic file contents; " + TECH_B
 
